@@ -353,6 +353,7 @@ def _entry(draw, step=False):
         "used": used, "branch_arg": branch_arg, "method": method, "pore": pore, "meniscus": meniscus,
         "kelvin": kelvin, "kelvin_c": draw(st.floats(0.05, 5.0)), "thickness": draw(_thickness),
         "loading": draw(st.sampled_from(["volume_liquid", "molar", "volume_liquid", "molar", "mass", "volume_gas"])), "ads": draw(_ads),
+        "pressure": draw(st.sampled_from(["relative"] * 4 + ["relative%", "absolute:bar", "absolute:kPa", "absolute:Pa"])),
     }
     kind = "none" if step else draw(st.sampled_from(["default", "default", "none", "window", "window", "window",
                                                      "free"]))
@@ -479,9 +480,25 @@ def _run_entry(e, ctx):
         else:
             to_liquid, lunit = 1.0, "cm3"
         molar = False
+        # the stored pressure representation (the methods work on relative pressure whatever the isotherm is stored in)
+        prep = e.get("pressure", "relative")
+        if prep == "relative":
+            pmode, punit, pstore = "relative", None, list(pressure)
+        elif prep == "relative%":
+            pmode, punit, pstore = "relative%", None, [100.0 * v for v in pressure]
+        else:
+            punit = prep.split(":")[1]
+            if registry:
+                from CoolProp.CoolProp import PropsSI
+                fl = K.get_adsorbate(e["ads"]["name"]).properties["backend_name"]
+                psat_pa = PropsSI("P", "T", T, "Q", 0, fl)
+            else:
+                psat_pa = 1.2e5  # one more user-supplied constant of the user-defined adsorbate
+                next(x for x in ADSORBATE_LIST if x.name == _CUSTOM_ADS).properties.update(saturation_pressure=psat_pa)
+            pmode, pstore = "absolute", [v * psat_pa / {"bar": 1e5, "kPa": 1e3, "Pa": 1.0}[punit] for v in pressure]
         iso = pygaps.PointIsotherm(
-            pressure=pressure, loading=loading, branch=branch, material="verif-c16-material", adsorbate=name,
-            temperature=T, pressure_mode="relative", pressure_unit=None,
+            pressure=pstore, loading=loading, branch=branch, material="verif-c16-material", adsorbate=name,
+            temperature=T, pressure_mode=pmode, pressure_unit=punit,
             loading_basis=lbasis, loading_unit=lunit,
             material_basis="mass", material_unit="g", temperature_unit="K")
 
@@ -545,6 +562,10 @@ def _run_entry(e, ctx):
         rk_lib = c / (-np.log(p))
         late = None
     tol = 1e-9 if registry else 1e-12
+    if e.get("pressure", "relative") != "relative":
+        # a stored representation that has to be converted to relative pressure first: an ulp in p is amplified by
+        # 1/|ln p| in the Kelvin radius (grid up to 1 - 1e-6)
+        tol = max(tol, 1e-8)
     return {"res": res, "p": p, "v": v, "t": t_fn(p), "rk_lib": rk_lib, "zero": zero, "what": what, "men": men,
             "tol_w": tol, "tol_v": tol if (molar or registry) else 1e-12, "late": late, "registry": registry}
 
